@@ -178,3 +178,23 @@ check("C08", "exploration",
       "and the same contract around all calls of real compilations with small caches.",
       "Depth-slice lists are those the scheduler builds (interior offsets multiples of 16); volumes above 90000 weights are checked for structure and scales only; requests are sampled.",
       "runtime contract on the real function with a decoding oracle and a cache-history monitor", "DESIGN.md 4/C08")
+
+# ---- additions of the last session (appended to the texts above)
+EXTRA_TEXT = {
+    "C01": "Appended families: rank-changing memory-only operators (SQUEEZE / EXPAND_DIMS / PACK / UNPACK / SLICE / STRIDED_SLICE, split parts as both operands of a binary "
+           "operator), EXP through an 8-bit table and SQUARED_DIFFERENCE (32-bit elementwise lowering, tolerance 1), grouped convolutions (reference kernel with groups).",
+    "C03": "Persistent-state (variable) tensors count as defined when the inference starts; the appended families of C01 are replayed too.",
+    "C05": "Ranges are requested repeatedly with different alignments through LiveRangeGraph.get_or_create_range (the largest request is the requested alignment).",
+    "C07": "The sanitizer vectors include dense palette-restart sequences (more than one new palette per 64 weights).",
+    "C08": "A scale tensor of its own (weights shared with another operator) must be programmed at its own per-core range offsets.",
+    "C09": "Scale inputs include exact ties of the multiplier rounding (doubles whose significand * 2^31 is m + 1/2).",
+    "C10": "For binary elementwise operators each operand's input region must be the OFM region moved by that operand's own read offset.",
+    "C11": "min / max vectors of quantisation tables are part of the compared tensor signature.",
+    "C12": "Variable (persistent state) tensors are live for the whole inference.",
+    "C13": "Appended cases: the compiler's own output compiled again, grouped convolutions, UNIDIRECTIONAL_SEQUENCE_LSTM (findings keyed with the operator), "
+           "rank-changing memory-only operators, EXP / SQUARED_DIFFERENCE.",
+    "C14": "Histories include models whose interface lists repeat a tensor and models in which several tensors carry the same name.",
+    "C16": "Predicates for the two broadcast sentences; boundary networks with lower-rank second operands (variable and constant, either order) and a non-broadcastable pair.",
+}
+for _pid, _t in EXTRA_TEXT.items():
+    CHECKS[_pid]["text"] += " " + _t
